@@ -1,5 +1,5 @@
 SPECIFICATION Spec
-CONSTANTS Tri = {"run", "fill_into", "compute"}
+CONSTANTS Tri = {"run", "fill_into"}
 INVARIANT AsDocumented
 INVARIANT NamedNeverCasts
 INVARIANT FillComputeBinds
